@@ -63,6 +63,8 @@ def check(ctx):
     ctx.rule("R10.2", "every block of the fresh operators that carries a link variable is rewritten by the refresh", 3)
     ctx.rule("R10.5", "a refresh guarded by a comparison with a remembered baseline is exact, or the baseline "
                       "is reassigned only where the refresh runs; screening refreshes are unconditional", 2)
+    ctx.rule("R10.6", "with screening on, every definition of the induced potential reaches the psi update only through a refresh "
+                      "with applied + induced potential", 2)
     f_set = repo.func(OPS, "MeshOperators.set_link_exponents")
     configs = [("F", True, "terminals pinned"), ("F", False, "pinning disabled"), ("empty", True, "no terminals")]
     seqs = [["A1", "A2"], ["A1", "A2", "A3"], ["A1", "A1"]]
@@ -209,5 +211,44 @@ def check_triggers(ctx):
                        message=f"refresh guarded by `{norm(g.test)}`, which is neither an exact nor a recognised "
                                f"tolerance comparison",
                        consequence="cannot show the operators follow the vector potential")
-    if not (seen_dynamic and seen_screening):
-        raise AnalysisError("update() no longer has both a time-dependent and a screening refresh site")
+    ctx.ob("R10.5", "update() refreshes the operators both for a time-dependent applied potential and for the induced potential",
+           seen_dynamic and seen_screening, detail={"dynamic_site": seen_dynamic, "screening_site": seen_screening,
+                                                    "calls": [norm(c) for c in calls]},
+           where=fu.fq, construct="refresh sites of update()", loc=loc(fu, fn),
+           message="one of the two refresh sites (applied potential / applied + induced potential) is missing",
+           consequence="operators are never refreshed for one kind of vector-potential change")
+    screening_staleness(ctx, fu, calls)
+
+
+def screening_staleness(ctx, fu, calls):
+    """R10.6: with screening on, the psi update always runs with link variables of the latest induced potential."""
+    from ..cfg import build_cfg
+    fn = fu.node
+    cfg = build_cfg(fn)
+    euler = [n for n in cfg.nodes if n.kind == "stmt" and n.ast is not None and any(
+        isinstance(c, ast.Call) and norm(c.func) == "self.adaptive_euler_step" for c in ast.walk(n.ast))]
+    if len(euler) != 1:
+        raise AnalysisError("update() no longer has exactly one adaptive_euler_step call")
+    E = euler[0].id
+    refresh = []
+    for c in calls:
+        names = {x.id for a in c.args for x in ast.walk(a) if isinstance(x, ast.Name)}
+        if "A_induced" in names and "current_A_applied" in names:
+            for n in cfg.nodes:
+                if n.kind == "stmt" and n.ast is not None and any(x is c for x in ast.walk(n.ast)):
+                    refresh.append(n.id)
+    defs = [n for n in cfg.nodes if n.kind == "stmt" and isinstance(n.ast, ast.Assign) and any(
+        isinstance(x, ast.Name) and x.id == "A_induced" and isinstance(x.ctx, ast.Store) for t in n.ast.targets for x in ast.walk(t))]
+    # prune the branches on which screening is off
+    off = set()
+    for n in cfg.nodes:
+        if n.kind == "if" and n.ast is not None and norm(n.ast.test).endswith("options.include_screening"):
+            off |= {v for v, lab in cfg.succ[n.id] if lab == "false"}
+    for d in defs:
+        wit = cfg.path(d.id, E, skip=set(refresh) | off, skip_edges=("exc",))
+        ctx.ob("R10.6", f"every path from `{norm(d.ast)[:60]}` to the psi update refreshes the link variables with current_A_applied + A_induced",
+               wit is None and bool(refresh), detail={"refresh_sites": len(refresh), "path": cfg.describe_path(wit)[-8:] if wit else None},
+               where=fu.fq, construct=f"A_induced defined at `{norm(d.ast)[:50]}` reaches the psi update", loc=loc(fu, d.ast),
+               message="the order-parameter update can run with link variables that do not include the latest induced vector potential",
+               consequence="with screening on, a step (or a screening iteration) uses stale covariant operators",
+               witness={"path": cfg.describe_path(wit)[-8:] if wit else None})
